@@ -322,6 +322,8 @@ Definition kw_wrap (cek : slice) : M res :=
 
 (* Unwrap(block, cipherText) *)
 Definition kw_unwrap (e : env) (ct : slice) : M res :=
+  (* guard of the current tree (C07 fix): whole 8-byte blocks, at least two *)
+  if negb (slen ct mod 8 =? 0) || (slen ct <? 16) then ret ([nil_slice], EOther) else
   a <- alloc 8 ;;
   if slen ct / 8 =? 0 then panic                      (* make([][]byte, -1) *)
   else
@@ -387,7 +389,7 @@ Definition grow_dst (dst : slice) (size : nat) : M slice :=
   if dstLen + size <=? scap dst then lift (reslice dst 0 (dstLen + size))
   else d <- alloc (dstLen + size) ;; copy d dst ;;; ret d.
 
-(* (*aesCBCAEAD).Seal *)
+(* aesCBCAEAD.Seal *)
 Definition aead_seal (v : variant) (k : aeadkind) (dst nonce pt aad : slice) : M slice :=
   if negb (slen nonce =? 16) then panic
   else
@@ -408,9 +410,11 @@ Definition aead_seal (v : variant) (k : aeadkind) (dst nonce pt aad : slice) : M
     | _ => panic
     end.
 
-(* (*aesCBCAEAD).Open *)
+(* aesCBCAEAD.Open *)
 Definition aead_open (e : env) (k : aeadkind) (dst nonce ct aad : slice) : M res :=
   if slen ct <? k_tag k then ret ([nil_slice], EOther)
+  (* guard of the current tree (C07 fix): without the tag, whole AES blocks *)
+  else if negb ((slen ct - k_tag k) mod 16 =? 0) then ret ([nil_slice], EOther)
   else
     ctTag <- lift (reslice_from ct (slen ct - k_tag k)) ;;
     ct' <- lift (reslice ct 0 (slen ct - k_tag k)) ;;
@@ -640,15 +644,16 @@ Definition dec_sym (v : variant) (e : env) (ct : slice) (a : alg) (k : key)
    functions read their byte arguments and return a fresh slice. *)
 Definition asym_read_args (args : list slice) : M unit := forM args (fun s => read s ;;; ret tt).
 
-Definition asym_op (e : env) (supported : bool) (nres : nat) (k : key) (args : list slice) : M res :=
-  if negb supported then ret (repeat nil_slice nres, EUnsupported)
+Definition asym_op (e : env) (supported has_res : bool) (k : key) (args : list slice) : M res :=
+  let none := if has_res then [nil_slice] else [] in
+  if negb supported then ret (none, EUnsupported)
   else
     match k with KSym key => read key ;;; ret tt | KAsym => ret tt end ;;;
     if e_ok e then
       asym_read_args args ;;;
-      r <- alloc_init (repeat U (e_rlen e)) ;;
-      ret (r :: repeat nil_slice (nres - 1), ENone)
-    else ret (repeat nil_slice nres, e_err e).
+      if has_res then r <- alloc_init (repeat U (e_rlen e)) ;; ret ([r], ENone)
+      else ret ([], ENone)
+    else ret (none, e_err e).
 
 Definition is_pubenc_alg (a : alg) : bool :=
   match a with RSA1_5 | RSA_OAEP | RSA_OAEP_256 | RSA_OAEP_384 | RSA_OAEP_512 => true | _ => false end.
@@ -692,9 +697,9 @@ Inductive call :=
 | CParseKey (raw : slice).
 
 Definition enc_pub (e : env) (pt : slice) (a : alg) (k : key) (aad : slice) : M res :=
-  asym_op e (is_pubenc_alg a) 1 k [pt; aad].
+  asym_op e (is_pubenc_alg a) true k [pt; aad].
 Definition dec_priv (e : env) (ct : slice) (a : alg) (k : key) (aad : slice) : M res :=
-  asym_op e (is_pubenc_alg a) 1 k [ct; aad].
+  asym_op e (is_pubenc_alg a) true k [ct; aad].
 
 Definition run_call (v : variant) (e : env) (c : call) : M res :=
   match c with
@@ -735,8 +740,8 @@ Definition run_call (v : variant) (e : env) (c : call) : M res :=
       end
   | CEncPub pt a k aad => enc_pub e pt a k aad
   | CDecPriv ct a k aad => dec_priv e ct a k aad
-  | CSign digest a k => asym_op e (is_sig_alg a) 1 k [digest]
-  | CVerify digest sig a k => asym_op e (is_sig_alg a) 0 k [digest; sig]
+  | CSign digest a k => asym_op e (is_sig_alg a) true k [digest]
+  | CVerify digest sig a k => asym_op e (is_sig_alg a) false k [digest; sig]
   | CParseKey raw => read raw ;;; ret ([], if e_ok e then ENone else EOther)
   end.
 
